@@ -238,9 +238,28 @@ func (t *simTxn) Commit() error {
 		before = s.cfgDigest()
 		stBefore, _, _ = s.durableStatus(PipelineID)
 	}
+	// a flush of the connector persister (no client, connector documents only) stores positions:
+	// it must leave the stored configuration as it is
+	positionFlush := t.client == "" && !s.passthrough && !s.w.direct && s.w.or != nil && s.w.started && len(t.changes) > 0
+	for k := range t.changes {
+		if !strings.HasPrefix(k, "connector:instance:") {
+			positionFlush = false
+		}
+	}
+	cfgBefore := ""
+	if positionFlush {
+		cfgBefore = s.cfgDigest()
+	}
 	s.apply(t.changes)
 	keys := append([]string(nil), t.order...)
 	s.w.log(Event{Kind: "TX_COMMIT", Inc: t.h.inc, N: t.id, OK: true, Pos: keys})
+	if positionFlush && cfgBefore != s.cfgDigest() {
+		prop := "C16"
+		if f := s.w.cfg.Focus; f == "C14" || f == "C15" {
+			prop = f
+		}
+		s.w.violate(prop, "position-write-overwrote-newer-config", fmt.Sprintf("a position flush of the connector persister (transaction %d, keys %v) changed the stored configuration: it wrote a connector document serialized before a configuration change (or deletion) that has been committed since - the store lost that change", t.id, keys))
+	}
 	if t.client != "" && s.w.or != nil && len(t.changes) > 0 {
 		s.w.or.onAttributedWrite(s.w, t.client, before, stBefore)
 	}
